@@ -5,6 +5,6 @@ cd "$(dirname "$0")"
 for p in $(python3 -c "import json; print(' '.join(c['property_id'] for c in json.load(open('MANIFEST.json'))['checks']))"); do
   s=$(date +%s)
   out=$(./check $p --tier $tier ${NOEVIDENCE:+--no-evidence} 2>&1); rc=$?
-  echo "$p rc=$rc $(( $(date +%s) - s ))s  $(echo "$out" | grep -E "status=" | tail -1 | sed 's/.*paths=/paths=/')"
-  echo "$out" | grep -E "^(VIOLATION|INCONCLUSIVE|HARNESS-ERROR|ENCODING-MISMATCH)" | head -3
+  echo "$p rc=$rc $(( $(date +%s) - s ))s  $(echo "$out" | grep -a -E "status=" | tail -1 | sed 's/.*paths=/paths=/')"
+  echo "$out" | grep -a -E "^(VIOLATION|INCONCLUSIVE|HARNESS-ERROR|ENCODING-MISMATCH)" | head -3
 done
